@@ -275,7 +275,7 @@ class HeadFormula(Formula):
         """
         Return the unique string representaiton of the formula.
         """
-        return ("head", self.__timestep, self.__formula._rep)
+        return ("head", self.__timestep, self.__formula._rep, tuple(self.__literals))
 
     def translate(self, ctx, step):
         """
